@@ -49,6 +49,13 @@ const desyncBudget = 6
 
 var desyncsP, desyncsC atomic.Int32 // per stream: patches, cache
 
+// predicted follow-up attempts that the implementation did not launch (each costs spawnGrace); past the budget the patches
+// enumeration stops — by then the oracle has concrete failing inputs
+const spawnGrace = 40 * time.Millisecond
+const missingBudget = 400
+
+var missingCalls atomic.Int32
+
 // ------------------------------------------------------------------ (a) patches
 
 type req = guidedremediation.VerifC16Req
@@ -91,6 +98,9 @@ func reqList(rs []req) string {
 	h := make([]string, len(rs))
 	for i, r := range rs {
 		h[i] = hx.Hex(r.Name) + ":" + hx.Hex(r.Version)
+		if r.KnownAs != "" {
+			h[i] += ":" + hx.Hex(r.KnownAs)
+		}
 	}
 	return hx.Join(h, ",")
 }
@@ -127,7 +137,11 @@ func parseReqs(s string) []req {
 	var out []req
 	for _, p := range strings.Split(s, ",") {
 		nv := strings.Split(p, ":")
-		out = append(out, req{Name: hx.UnHex(nv[0]), Version: hx.UnHex(nv[1])})
+		r := req{Name: hx.UnHex(nv[0]), Version: hx.UnHex(nv[1])}
+		if len(nv) > 2 {
+			r.KnownAs = hx.UnHex(nv[2])
+		}
+		out = append(out, r)
 	}
 	return out
 }
@@ -165,11 +179,17 @@ func (u *universe) predictSpawn(ids []string) [][]string {
 	}
 	changed := false
 	old := map[string]string{}
+	rk := func(r req) string {
+		if r.KnownAs != "" {
+			return r.KnownAs
+		}
+		return r.Name
+	}
 	for _, r := range u.reqs {
-		old[r.Name] = r.Version
+		old[rk(r)] = r.Version
 	}
 	for _, r := range o.Reqs {
-		if v, ok := old[r.Name]; !ok || v != r.Version {
+		if v, ok := old[rk(r)]; !ok || v != r.Version {
 			changed = true
 		}
 	}
@@ -287,7 +307,12 @@ func runPatches(u *universe, sched [][]string) (pending []string, reply string) 
 		}()
 		return nil, "res=desync:" + msg
 	}
-	expect := func(want [][]string) string {
+	// expect waits for the calls the table predicts. `grace` bounds the wait: the initial attempts must all arrive (stepTimeout); follow-ups are
+	// launched by the collector within microseconds of the result it has just started to process, so a predicted follow-up that has not
+	// announced itself after spawnGrace is taken as "the implementation did not launch it" — the run goes on (dev=1) and the final
+	// result is judged against the specification. (On the unchanged code a slow machine can at worst make a follow-up arrive late; it is
+	// then picked up by the next expect or at the end, and the delivery order that was recorded is still one the model accepts.)
+	expect := func(want [][]string, grace time.Duration) string {
 		need := map[string]int{}
 		for _, w := range want {
 			need[key(w)]++
@@ -295,8 +320,6 @@ func runPatches(u *universe, sched [][]string) (pending []string, reply string) 
 		for n := len(want); n > 0; n-- {
 			select {
 			case c := <-announce:
-				// a call with ids the table does not predict is NOT fatal: the run goes on with what the implementation
-				// really asked for (dev=1 in the reply), so that its final result can be judged against the specification
 				k := key(c.ids)
 				if need[k] == 0 {
 					deviated = true
@@ -306,10 +329,27 @@ func runPatches(u *universe, sched [][]string) (pending []string, reply string) 
 				pend = append(pend, c)
 			case r := <-done:
 				done <- r
-				return "returned-with-calls-outstanding"
-			case <-time.After(stepTimeout):
-				return "expected-call-missing"
+				deviated = true
+				return ""
+			case <-time.After(grace):
+				if grace >= stepTimeout {
+					return "expected-call-missing"
+				}
+				deviated = true
+				missingCalls.Add(1)
+				return ""
 			}
+		}
+		// calls nobody predicted that are already there
+		for {
+			select {
+			case c := <-announce:
+				deviated = true
+				pend = append(pend, c)
+				continue
+			default:
+			}
+			break
 		}
 		return ""
 	}
@@ -317,16 +357,29 @@ func runPatches(u *universe, sched [][]string) (pending []string, reply string) 
 	for _, v := range u.vulns {
 		init = append(init, []string{v})
 	}
-	if e := expect(init); e != "" {
+	if e := expect(init, stepTimeout); e != "" {
 		return fail(e)
 	}
 	for _, ids := range sched {
 		k := key(ids)
-		idx := -1
-		for i, c := range pend {
-			if key(c.ids) == k {
-				idx = i
-				break
+		find := func() int {
+			for i, c := range pend {
+				if key(c.ids) == k {
+					return i
+				}
+			}
+			return -1
+		}
+		idx := find()
+		for deadline := time.Now().Add(stepTimeout); idx < 0 && time.Now().Before(deadline); idx = find() {
+			// not pending yet: a follow-up that announced itself later than spawnGrace (slow machine, race build) — wait for it
+			select {
+			case c := <-announce:
+				pend = append(pend, c)
+			case r := <-done:
+				done <- r
+				deadline = time.Now()
+			case <-time.After(50 * time.Millisecond):
 			}
 		}
 		if idx < 0 {
@@ -346,7 +399,7 @@ func runPatches(u *universe, sched [][]string) (pending []string, reply string) 
 				return fail("result-not-received")
 			}
 		}
-		if e := expect(u.predictSpawn(ids)); e != "" {
+		if e := expect(u.predictSpawn(ids), spawnGrace); e != "" {
 			return fail(e)
 		}
 	}
@@ -398,8 +451,24 @@ func runPatches(u *universe, sched [][]string) (pending []string, reply string) 
 		}
 		return nil, "res=" + showPatches(r.ps) + dev
 	case c := <-announce:
-		_ = c
-		return fail("unexpected-call-at-end")
+		// a call the controller did not know about (late or unpredicted): still pending — hand it back to the enumeration
+		pend = append(pend, c)
+		for _, c := range pend {
+			pending = append(pending, key(c.ids))
+		}
+		close(abort)
+		go func() {
+			for {
+				select {
+				case <-announce:
+				case <-done:
+					return
+				case <-time.After(stepTimeout):
+					return
+				}
+			}
+		}()
+		return pending, ""
 	case <-time.After(stepTimeout):
 		return fail("no-return")
 	}
@@ -419,7 +488,7 @@ func enumPatches(u *universe, limit int, emit func(c, r string), rng *rand.Rand)
 	head := u.head()
 	var dfs func(prefix [][]string)
 	dfs = func(prefix [][]string) {
-		if n >= limit || desyncsP.Load() >= desyncBudget {
+		if n >= limit || desyncsP.Load() >= desyncBudget || missingCalls.Load() >= missingBudget {
 			return
 		}
 		pending, reply := runPatches(u, prefix)
@@ -477,7 +546,7 @@ func checkPools() {
 }
 
 func fixedUniverses() []*universe {
-	base := []req{{"x", "1.0.0"}, {"y", "1.0.0"}, {"z", "1.0.0"}}
+	base := []req{{Name: "x", Version: "1.0.0"}, {Name: "y", Version: "1.0.0"}, {Name: "z", Version: "1.0.0"}}
 	bump := func(name, v string) []req {
 		out := append([]req(nil), base...)
 		for i := range out {
@@ -553,12 +622,97 @@ func fixedUniverses() []*universe {
 	return us
 }
 
+
+// twinUniverses: DISTINCT attempts that produce the SAME patch and then diverge. Two (or three) initial vulnerabilities are
+// fixed by the very same update, which introduces further vulnerabilities; the follow-up attempts (ids ++ introduced, or one per
+// introduced vulnerability) differ per twin and end at different versions. Same manifest => same vulnerabilities, so the twins'
+// patches are IDENTICAL (CmpEqImpliesEq holds): the expected list has the common patch once and every follow-up's patch.
+// (Demo shape: A affects x 1.0 and 1.2, B only 1.0, C only 1.1 — [A],[B] -> 1.1; [A,C] -> 1.3; [B,C] -> 1.2.)
+func twinUniverses() []*universe {
+	base := []req{{Name: "x", Version: "1.0.0"}, {Name: "y", Version: "1.0.0"}}
+	set := func(x, y string) []req { return []req{{Name: "x", Version: x}, {Name: "y", Version: y}} }
+	var us []*universe
+	for _, g := range []bool{true, false} {
+		for _, relax := range []bool{false, true} {
+			v := func(n int) string {
+				if relax {
+					return fmt.Sprintf("^%d.0.0", n)
+				}
+				return fmt.Sprintf("%d.0.0", n)
+			}
+			// the demo shape
+			u := &universe{grouped: g, vulns: []string{"A", "B"}, reqs: base, table: map[string]outcome{}}
+			u.put([]string{"A"}, outcome{Reqs: set(v(2), "1.0.0"), Vulns: []string{"C"}})
+			u.put([]string{"B"}, outcome{Reqs: set(v(2), "1.0.0"), Vulns: []string{"C"}})
+			u.put([]string{"A", "C"}, outcome{Reqs: set(v(4), "1.0.0"), Vulns: nil})
+			u.put([]string{"B", "C"}, outcome{Reqs: set(v(3), "1.0.0"), Vulns: []string{"A"}})
+			us = append(us, u)
+			// three twins, the common patch introduces two vulnerabilities; one twin's follow-up fails, one changes nothing
+			u = &universe{grouped: g, vulns: []string{"A", "B", "E"}, reqs: base, table: map[string]outcome{}}
+			for _, t := range []string{"A", "B", "E"} {
+				u.put([]string{t}, outcome{Reqs: set(v(2), "1.0.0"), Vulns: []string{"C", "D"}})
+			}
+			if g {
+				u.put([]string{"A", "C", "D"}, outcome{Reqs: set(v(3), "1.0.0"), Vulns: []string{"B"}})
+				u.put([]string{"B", "C", "D"}, outcome{Reqs: set(v(4), v(2)), Vulns: nil})
+				u.put([]string{"E", "C", "D"}, outcome{Err: 1})
+			} else {
+				u.put([]string{"A", "C"}, outcome{Reqs: set(v(3), "1.0.0"), Vulns: []string{"B", "D"}})
+				u.put([]string{"A", "D"}, outcome{Reqs: set(v(4), "1.0.0"), Vulns: []string{"C"}})
+				u.put([]string{"B", "C"}, outcome{Reqs: set(v(5), "1.0.0"), Vulns: []string{"D"}})
+				u.put([]string{"B", "D"}, outcome{Reqs: set(v(3), "1.0.0"), Vulns: []string{"B", "D"}}) // the same patch as [A,C]'s: twins again one level down
+				u.put([]string{"E", "C"}, outcome{Err: 1})
+				u.put([]string{"E", "D"}, outcome{Reqs: base, Vulns: []string{"A", "B", "E"}})
+				u.put([]string{"A", "C", "D"}, outcome{Reqs: set(v(9), "1.0.0"), Vulns: nil})
+				u.put([]string{"A", "D", "C"}, outcome{Reqs: set(v(9), "1.0.0"), Vulns: nil})
+				u.put([]string{"B", "C", "D"}, outcome{Reqs: set(v(10), "1.0.0"), Vulns: nil})
+				u.put([]string{"B", "D", "D"}, outcome{Err: 1})
+			}
+			us = append(us, u)
+			// twins plus an unrelated attempt, follow-ups two levels deep
+			u = &universe{grouped: g, vulns: []string{"A", "B", "W"}, reqs: base, table: map[string]outcome{}}
+			u.put([]string{"W"}, outcome{Reqs: set("1.0.0", v(2)), Vulns: []string{"A", "B"}})
+			u.put([]string{"A"}, outcome{Reqs: set(v(2), "1.0.0"), Vulns: []string{"W", "C"}})
+			u.put([]string{"B"}, outcome{Reqs: set(v(2), "1.0.0"), Vulns: []string{"W", "C"}})
+			u.put([]string{"A", "C"}, outcome{Reqs: set(v(3), "1.0.0"), Vulns: []string{"W", "F"}})
+			u.put([]string{"B", "C"}, outcome{Reqs: set(v(3), "1.0.0"), Vulns: []string{"W", "F"}}) // twins again
+			u.put([]string{"A", "C", "F"}, outcome{Reqs: set(v(4), "1.0.0"), Vulns: []string{"W"}})
+			u.put([]string{"B", "C", "F"}, outcome{Reqs: set(v(5), "1.0.0"), Vulns: []string{"W", "A"}})
+			us = append(us, u)
+		}
+	}
+	return us
+}
+
+// aliasUniverses: Compare-equal but DIFFERENT patches that a real manifest can produce: package x is required twice, once
+// directly and once under the npm alias "xx" ("xx": "npm:x@1.0.0"); vulnerability A is reached through the first requirement,
+// B through the second. Both fixes read "x 1.0.0 -> 2.0.0" (same Name, VersionFrom, VersionTo) with different Fixed sets, and
+// Patch.Compare cannot tell them apart: CmpEqImpliesEq fails, CompactFunc keeps whichever was delivered first.
+func aliasUniverses() []*universe {
+	base := []req{{Name: "x", Version: "1.0.0"}, {Name: "x", Version: "1.0.0", KnownAs: "xx"}}
+	var us []*universe
+	for _, g := range []bool{true, false} {
+		u := &universe{grouped: g, vulns: []string{"A", "B"}, reqs: base, table: map[string]outcome{}}
+		u.put([]string{"A"}, outcome{Reqs: []req{{Name: "x", Version: "2.0.0"}, {Name: "x", Version: "1.0.0", KnownAs: "xx"}}, Vulns: []string{"B"}})
+		u.put([]string{"B"}, outcome{Reqs: []req{{Name: "x", Version: "1.0.0"}, {Name: "x", Version: "2.0.0", KnownAs: "xx"}}, Vulns: []string{"A"}})
+		us = append(us, u)
+		// the same with follow-ups: each fix introduces its own vulnerability
+		u = &universe{grouped: g, vulns: []string{"A", "B"}, reqs: base, table: map[string]outcome{}}
+		u.put([]string{"A"}, outcome{Reqs: []req{{Name: "x", Version: "2.0.0"}, {Name: "x", Version: "1.0.0", KnownAs: "xx"}}, Vulns: []string{"B", "C"}})
+		u.put([]string{"B"}, outcome{Reqs: []req{{Name: "x", Version: "1.0.0"}, {Name: "x", Version: "2.0.0", KnownAs: "xx"}}, Vulns: []string{"A", "D"}})
+		u.put([]string{"A", "C"}, outcome{Reqs: []req{{Name: "x", Version: "3.0.0"}, {Name: "x", Version: "1.0.0", KnownAs: "xx"}}, Vulns: []string{"B"}})
+		u.put([]string{"B", "D"}, outcome{Reqs: []req{{Name: "x", Version: "1.0.0"}, {Name: "x", Version: "9.0.0", KnownAs: "xx"}}, Vulns: []string{"A"}})
+		us = append(us, u)
+	}
+	return us
+}
+
 // randomUniverse: 2..4 initial vulns over ids A..G, outcomes drawn per task; the table is the closure of the
 // initial tasks under the predicted spawn (capped), so every call the implementation can make is listed.
 func randomUniverse(rng *rand.Rand) *universe {
 	ids := []string{"A", "B", "C", "D", "E", "F", "G"}
 	names := []string{"x", "y", "z"}
-	base := []req{{"x", "1.0.0"}, {"y", "1.0.0"}, {"z", "1.0.0"}}
+	base := []req{{Name: "x", Version: "1.0.0"}, {Name: "y", Version: "1.0.0"}, {Name: "z", Version: "1.0.0"}}
 	nv := 2 + rng.Intn(3)
 	u := &universe{grouped: rng.Intn(2) == 0, reqs: base, table: map[string]outcome{}}
 	perm := rng.Perm(len(ids))
@@ -578,6 +732,7 @@ func randomUniverse(rng *rand.Rand) *universe {
 		}
 		return unparsable[rng.Intn(len(unparsable))]
 	}
+	byManifest := map[string][]string{}
 	var queue [][]string
 	for _, v := range u.vulns {
 		queue = append(queue, []string{v})
@@ -626,6 +781,13 @@ func randomUniverse(rng *rand.Rand) *universe {
 				}
 			}
 			rng.Shuffle(len(vs), func(i, j int) { vs[i], vs[j] = vs[j], vs[i] })
+			// the same patched manifest has the same vulnerabilities, whichever attempt produced it (deterministic
+			// resolution + matching): attempts with equal updates yield IDENTICAL patches, possibly with different follow-ups
+			if prev, ok := byManifest[reqList(rs)]; ok {
+				vs = prev
+			} else {
+				byManifest[reqList(rs)] = vs
+			}
 			o = outcome{Reqs: rs, Vulns: vs}
 		}
 		u.put(t, o)
@@ -642,7 +804,7 @@ func randomUniverse(rng *rand.Rand) *universe {
 // distinct (CmpEqImpliesEq holds) and the expected result has one patch per attempt. Attempts over 3 and 5..7 accumulated
 // ids with fan-out >= 2 are the shapes where a follow-up slice built without cloning would share its backing array.
 func chainUniverse(grouped bool, depth int, fan, cont []int, relaxStyle, second bool) *universe {
-	base := []req{{"x", "1.0.0"}, {"y", "1.0.0"}}
+	base := []req{{Name: "x", Version: "1.0.0"}, {Name: "y", Version: "1.0.0"}}
 	u := &universe{grouped: grouped, vulns: []string{"V0"}, reqs: base, table: map[string]outcome{}}
 	var keep []string // initial vulnerabilities no attempt of the chain fixes
 	if second {
@@ -652,7 +814,7 @@ func chainUniverse(grouped bool, depth int, fan, cont []int, relaxStyle, second 
 		if relaxStyle {
 			wv = "^2.0.0"
 		}
-		u.put([]string{"W"}, outcome{Reqs: []req{{"x", "1.0.0"}, {"y", wv}}, Vulns: []string{"V0"}})
+		u.put([]string{"W"}, outcome{Reqs: []req{{Name: "x", Version: "1.0.0"}, {Name: "y", Version: wv}}, Vulns: []string{"V0"}})
 	}
 	n := 1
 	ver := func() string {
@@ -666,7 +828,7 @@ func chainUniverse(grouped bool, depth int, fan, cont []int, relaxStyle, second 
 		}
 		return v
 	}
-	bump := func() []req { return []req{{"x", ver()}, {"y", "1.0.0"}} }
+	bump := func() []req { return []req{{Name: "x", Version: ver()}, {Name: "y", Version: "1.0.0"}} }
 	task := []string{"V0"}
 	for l := 1; l <= depth; l++ {
 		var intro []string
@@ -1291,11 +1453,18 @@ func main() {
 			switch {
 			case strings.HasPrefix(l, "patches "):
 				u, sched := parsePatchesCase(l)
-				_, reply := runPatches(u, sched)
+				pending, reply := runPatches(u, sched)
+				for guard := 0; reply == "" && len(pending) > 0 && guard < 64; guard++ {
+					// the recorded order ends while this implementation still has attempts pending (it launched calls the recording
+					// implementation did not): deliver them in arrival order; the model answers bad-schedule/done=0 and the specification judges the result
+					sched = append(sched, strings.Split(pending[0], "\x00"))
+					pending, reply = runPatches(u, sched)
+				}
 				if reply == "" {
 					reply = "res=incomplete"
 				}
-				emit(l, reply)
+				// the case line carries the delivery order that was actually executed (the recorded one plus what had to be delivered after it)
+				emit(l[:strings.LastIndex(l, " ")]+" "+schedStr(sched), reply)
 			case strings.HasPrefix(l, "pfree "):
 				// a free run is not deterministic (that is its point): the case as given, then 7 more runs alternating
 				// GOMAXPROCS 1/16 with other perturbation patterns, each reported under its own g/r token
@@ -1334,7 +1503,7 @@ func main() {
 		if thorough {
 			reps = 5
 		}
-		freeStream(append(chains, fixedUniverses()...), reps, out)
+		freeStream(append(append(append(chains, twinUniverses()...), aliasUniverses()...), fixedUniverses()...), reps, out)
 		return
 	}
 	// (a) fixed universes: all delivery orders; random universes: all orders up to a cap
@@ -1349,7 +1518,7 @@ func main() {
 		sem <- struct{}{}
 		go func() { defer wg.Done(); defer func() { <-sem }(); f() }()
 	}
-	for _, u := range fixedUniverses() {
+	for _, u := range append(append(fixedUniverses(), twinUniverses()...), aliasUniverses()...) {
 		u := u
 		spawn(func() { enumPatches(u, capU, emit, nil) })
 	}
